@@ -2,8 +2,11 @@
 
 TLA+ (spec/Slice.tla) decides; this driver renders abstract series (timestamps = integers on a time grid,
 bounds = grid positions, 0 = None) into pd.Series / pd.DataFrame with a DatetimeIndex (naive or in a time zone,
-sorted, possibly with repeated timestamps) and datetime / datetime.time bounds, calls df_slice / df_unslice and
-encodes what came back."""
+sorted, possibly with repeated timestamps) and date bounds in several realisations (datetime, Timestamp, datetime64,
+date, string; zone-aware in the zone of the index or in another zone) / datetime.time bounds, calls df_slice / df_unslice
+and encodes what came back.  Sessions (spec/SliceSess.tla): one world of caller-owned objects (a list of series, a list
+of bounds, the frame a stitch returned), public calls and the caller's in-place edits in between, the whole world read
+again after every step."""
 import datetime, math, warnings
 import numpy as np
 import pandas as pd
@@ -422,7 +425,7 @@ def observe_sess(case, chooser=None):
     if before != case['w0']:
         raise Machinery('C13 driver: the rendered world does not read back as the abstract one: %r' % (case['w0'],))
     meta = {k: case.get(k) or '' for k in ('form', 'tz', 'btz', 'brep', 'iunit')}
-    meta.update(unit=case['unit'], named=bool(case.get('name')), spelling=case.get('spelling', 0), w0=case['w0'], sid=case.get('sid', 0))
+    meta.update(unit=case['unit'], named=bool(case.get('name')), spelling=case.get('spelling', 0), w0=case['w0'], sid=str(case.get("sid", 0)))
     out, acts, k, a = [], [], 0, None
     while True:
         a = chooser(k, before, a) if chooser else (case['steps'][k]['a'] if k < len(case['steps']) else None)
@@ -836,10 +839,10 @@ def s2c_sessions(ctx, sessions, tag, forms):
     for f in forms:
         if not any(k[0] == f for k in seen):
             raise Machinery('vacuous: TLC printed no session of form %s (%s)' % (f, tag))
-    if {k[1] for k in seen} != SESS_OPS:
+    if tag == 'pairs' and {k[1] for k in seen} != SESS_OPS:
         raise Machinery('vacuous: the sessions of %s never take the steps %s' % (tag, sorted(SESS_OPS - {k[1] for k in seen})))
     for i, c in enumerate(sessions):
-        c['sid'] = i
+        c['sid'] = '%s-%d' % (tag, i)
         c['tz'] = TZS[(i // 12 + i) % len(TZS)]
         c['btz'] = BTZS[(i // 5) % len(BTZS)] if c['tz'] else None
         c['brep'] = BREPS[(i // 7 + i) % len(BREPS)]
@@ -858,8 +861,7 @@ def s2c_sessions(ctx, sessions, tag, forms):
         if i % 1501 == 7:
             ctx.sample({'s2c_session_' + tag: {'form': case['form'], 'w0': case['w0'], 'steps': [small_act(st['a']) for st in case['steps']],
                                                'tz': case['tz'], 'btz': case['btz'], 'brep': case['brep']}}, limit=6)
-    if tolog:
-        judge(ctx, tolog)
+    return tolog                    # the df_unslice steps: judged by Trace_Slice together with the random sessions
 
 
 # ---------------------------------------------------------------------------------------------
@@ -1005,14 +1007,15 @@ def c2s(ctx, n_slice, n_stitch):
     return obs
 
 
-def c2s_sessions(ctx, n):
-    """random sessions on larger worlds: every step is judged by Trace_Slice (StepVerdict of SliceSess.tla)"""
+def c2s_sessions(ctx, n, s2c_steps):
+    """random sessions on larger worlds: every step is judged by Trace_Slice (StepVerdict of SliceSess.tla), in one log with
+    the df_unslice steps of the sessions that TLC generated"""
     cases = [rand_sess(ctx.rng) for _ in range(n)]
     for i, c in enumerate(cases):
-        c['sid'] = i
+        c['sid'] = 'random-%d' % i
     obs = pmap(c2s_sess_chunk, cases, chunk=10)
     ctx.evals += sum(2 if o['a']['op'] == 'unslice' else 1 for o in obs if o['a']['op'] in ('stitch', 'unslice', 'slice'))
-    judge(ctx, obs)
+    judge(ctx, obs + s2c_steps)
     ops = {o['a']['op'] for o in obs}
     if ops != SESS_OPS:
         raise Machinery('vacuous: the random sessions never take the steps %s' % sorted(SESS_OPS - ops))
@@ -1067,17 +1070,30 @@ def run(ctx):
                 'stitching of series with repeated timestamps, df_unslice results and the C2S runs (random daily / intraday series with '
                 'gaps, repeated timestamps, naive or in 7 zones, minute grids around 12 clock changes, random bounds, 1-6 series) are '
                 'judged by Trace_Slice.  Non-trivial = the slice keeps some but not all rows / the stitched result draws on more than one '
-                'series; distinct by the abstract case.')
+                'series; distinct by the abstract case.  '
+                'SESSIONS (SliceSess.tla / MC_SliceSess: a call has no memory and owns nothing of the caller): one world of caller-owned '
+                'objects - a list of series objects (the same object may sit at two positions), a list of bounds, the frame the last stitch '
+                'returned; steps = df_slice(list, ub=bounds, n), df_unslice(frame, bounds), df_slice(series or frame, lb, ub, brackets) and the '
+                'caller\'s own in-place actions between calls (a value of a series / a cell of the returned frame overwritten or erased, a '
+                'bound moved, two list members swapped, a member replaced by a new object, the result of the last df_unslice / slice '
+                'scribbled over).  TLC enumerates stitch(n) ; [edit] ; stitch(m), stitch ; c ; [edit] ; c with c = unslice or a slice of the '
+                'frame, slice(q) ; [edit] ; slice(q\') breadth-first (edits thinned by a stride that moves with the world), simulates longer '
+                'histories (kind of step drawn first), and prints the world it expects after every step: the driver reads the whole world '
+                '(list members by identity and value, bounds, frame) after every step and compares with ==; df_unslice steps and random '
+                'sessions on larger worlds (1-4 series <= 30 points, 4-8 steps) are judged step by step by Trace_Slice (StepVerdict).  Every '
+                'case / session is dressed by its position with a zone, the zone a bound is written in (index zone, UTC, Tokyo, New York, '
+                '+05:30: same instant, other wall clock), the realisation of date bounds (datetime, Timestamp, datetime64, date, string) and '
+                'the resolution of the index (us, ns, s).')
     # the model of today's wrap-around branch breaks the law for brackets other than "(]" (design-level witness)
     ctx.mc('MC_Slice', 'MC_Slice_wrapmech.cfg', must_fail='WrapMechIsLaw', coverage=False)
     if ctx.quick:
         ctx.mc('MC_Slice', 'MC_Slice_quick.cfg')
         s2c(ctx, ctx.generate('MC_Slice', 'MC_Slice_gen.cfg'), 'quick')
         # sessions (the generator configuration carries the clauses of the session machine as invariants)
-        s2c_sessions(ctx, ctx.generate('MC_SliceSess', 'MC_SliceSess_gen_quick.cfg'), 'pairs', FORMS)
-        s2c_sessions(ctx, ctx.generate('MC_SliceSess', 'MC_SliceSess_sim.cfg', simulate=60, depth=16, seed=ctx.seed + 1, workers=1), 'sim', ['free'])
+        un = s2c_sessions(ctx, ctx.generate('MC_SliceSess', 'MC_SliceSess_gen_quick.cfg'), 'pairs', FORMS)
+        un += s2c_sessions(ctx, ctx.generate('MC_SliceSess', 'MC_SliceSess_sim.cfg', simulate=30, depth=16, seed=ctx.seed + 1, workers=1), 'sim', ['free'])
         c2s(ctx, 1500, 300)
-        c2s_sessions(ctx, 120)
+        c2s_sessions(ctx, 120, un)
     else:
         ctx.mc('MC_Slice', 'MC_Slice_thorough.cfg')
         s2c(ctx, ctx.generate('MC_Slice', 'MC_Slice_gen_big.cfg'), 'big')
@@ -1086,10 +1102,10 @@ def run(ctx):
         # its trimmed series back into the list it was given, break the clauses of the session machine
         ctx.mc('MC_SliceSess', 'MC_SliceSess_memo.cfg', must_fail='UnsliceNoMemory', coverage=False)
         ctx.mc('MC_SliceSess', 'MC_SliceSess_trim.cfg', must_fail='CallsOwnNothing', coverage=False)
-        s2c_sessions(ctx, ctx.generate('MC_SliceSess', 'MC_SliceSess_gen_thorough.cfg'), 'pairs', FORMS)
-        s2c_sessions(ctx, ctx.generate('MC_SliceSess', 'MC_SliceSess_sim_thorough.cfg', simulate=3000, depth=20, seed=ctx.seed + 1, workers=1), 'sim', ['free'])
+        un = s2c_sessions(ctx, ctx.generate('MC_SliceSess', 'MC_SliceSess_gen_thorough.cfg'), 'pairs', FORMS)
+        un += s2c_sessions(ctx, ctx.generate('MC_SliceSess', 'MC_SliceSess_sim_thorough.cfg', simulate=1000, depth=20, seed=ctx.seed + 1, workers=1), 'sim', ['free'])
         c2s(ctx, 20000, 4000)
-        c2s_sessions(ctx, 2500)
+        c2s_sessions(ctx, 2500, un)
     report(ctx)
     ctx.exhaustive = False
     ctx.assumptions += [
@@ -1106,8 +1122,14 @@ def run(ctx):
         'carrying up to 2 (thorough 3) rows each; time-of-day slices on 2 days x 3 (thorough 4) slots; zoned slices on 3 (thorough 5) '
         'slots of the clock-change day + 2 of an ordinary day for 2 (thorough 7) zone models; stitching 1-3 (thorough 4) series over '
         '2-4 index points; C2S series <= 60 points',
-        'bounds are handed over as datetime.datetime / datetime.time (other spellings of a date are property C04); the bound pair is '
-        'also spelled as a tuple and the brackets also as the letters c / o',
+        'date bounds are handed over as datetime.datetime, pd.Timestamp, numpy.datetime64, datetime.date (midnight) or ISO strings for a '
+        'naive index and as zone-aware datetime / Timestamp (in the zone of the index or in another zone) for a zoned index; a list of '
+        'bounds is written in one realisation (dates on a daily grid, strings of one format); times of day as datetime.time; numbers '
+        'and other date dialects are property C04; the bound pair is also spelled as a tuple and the brackets also as the letters c / o',
+        'sessions: df_unslice is asked for stitched frames only (CanUnstitch: some family of series stitches to the frame - after a '
+        'stitch with increasing bounds of NaN-free series, and after corrections of values that are there; TLC decides for the generated '
+        'histories); a result that IS one of the caller\'s objects (df_slice without bounds hands back its argument) is not scribbled on; '
+        'session worlds are small (2-3 series over 2-3 points, bounds on a grid twice as fine; random: <= 4 series of <= 30 points)',
         'series that record NaN values are stitched (a row is a row whatever its value) but not handed to df_unslice, which is '
         'exercised on frames that df_slice produced from NaN-free series with increasing bounds (a stitched frame shows NaN also '
         'where a series has no row)',
